@@ -357,7 +357,9 @@ func b01(b bool) string {
 	return "0"
 }
 
-// CopyAnswer formats the outcome of a deepcopy / clone op.
-func CopyAnswer(dst string, eq, alias, srcSame bool) string {
-	return strings.ReplaceAll(dst, " ", ",") + ";eq=" + b01(eq) + ";alias=" + b01(alias) + ";src=" + b01(srcSame)
+// CopyAnswer formats the outcome of a deepcopy / clone op: the destination in canonical form, whether it is
+// equal to the source in Go's sense (reflect.DeepEqual), whether it has the shape and the bits of the source
+// (ShapeEqual), whether memory of the two overlaps, whether the source reads as before the call.
+func CopyAnswer(dst string, eq, shape, alias, srcSame bool) string {
+	return strings.ReplaceAll(dst, " ", ",") + ";eq=" + b01(eq) + ";shape=" + b01(shape) + ";alias=" + b01(alias) + ";src=" + b01(srcSame)
 }
